@@ -1,11 +1,15 @@
 """C05  The driver always yields and always wakes: no deadlock, no lost wake-up."""
-from props import threadgen
+from props import threadgen, c02
 
 ID = "C05"
 SRC = threadgen.SRC
 HARNESSES = {
     "threads": dict(sources=SRC, flavour="asan", mode="C05", timeout=40),
     "default": dict(name="threads", sources=SRC, flavour="asan", mode="C05", timeout=40),
+    # "a queued buffer is transmitted ... without needing any unrelated event": producers x driver on the async TCP send
+    # queue under the same cooperative scheduler (sendQMtx lock/unlock are schedule points: the empty/refill window);
+    # evaluated by the C02 driver (every buffer arrives, every future gets its value, every buffer returns to the pool)
+    "asend_sched": dict(c02.HARNESSES["asend_sched"]),
     "threads_tsan": dict(name="threads_rt", sources=["scen/threads_rt.cpp"], flavour="tsan", mode="C04rt", timeout=60, jobs=4,
                          env={"TSAN_OPTIONS": "halt_on_error=1:exitcode=66"}),
 }
@@ -25,7 +29,7 @@ SHRINK = False  # removing threads/actions changes the scenario (e.g. drops the 
 
 
 def nontrivial(ops, tags):
-    return "contended" in tags
+    return "contended" in tags or any(o.startswith("mt ") for o in ops)
 
 
 def gen(rng, tier):
@@ -37,6 +41,10 @@ def gen(rng, tier):
         cases.append(("threads", "m%d" % k, ops))
     for i, ops in enumerate(threadgen.race_cases(rng, 40 if tier == "quick" else 600)):
         cases.append(("threads", "r%d" % i, ops))
+    for k in range(60 if tier == "quick" else 1500):
+        th, per = rng.choice([1, 2, 2, 3]), rng.choice([1, 1, 2, 3])
+        cases.append(("asend_sched", "q%d" % k, ["mt %d %d %d %d %d" % (th, per, rng.choice([0, 1, 5, 40]),
+                                                                      rng.choice([0, 0, 2, 5, 9]), rng.randrange(1, 10**9))]))
     if tier == "thorough":
         base1 = ["sched 7", "drv run", "usr u1 udp sendto close", "usr u2 todo:0 cancel", "usr stopper waitothers stop", "go"]
         base2 = ["sched 7", "drv steps 3 0", "usr u1 udp close", "usr u2 todo:0 shift:0", "go"]
@@ -51,7 +59,9 @@ LEVEL_TEXT = ("Machine-checked over the same LTS as C04: no lost wake-up (a user
               "ONE step: handover_at_most_one_step, by a potential argument), no deadlock (in every reachable state with a management call or Stop under way some thread can move WITHOUT "
               "any socket event, timeout or new call), driver progress. Tied to /repo by scheduled executions of silent scenarios "
               "(unlimited timeout, no traffic) in which the scheduler reports 'all parked, none enabled' as a deadlock with the schedule as "
-              "replay, and by the direct check that the driver begins at most one step while a caller waits after its datagram.")
+              "replay, by the direct check that the driver begins at most one step while a caller waits after its datagram, and by scheduled "
+              "producer/driver executions on the async send queue in which every queued buffer must be transmitted and every future resolved "
+              "with no event other than the Send calls themselves (the arming side of this is theorem asyncq_armed of C02).")
 LEVEL_NOTE = ("Trusted: as C04, plus A-PIPE (a datagram sent to the driver's own pipe stays readable until received) and fair scheduling of "
               "the only enabled thread by the OS. Other user threads may overtake a waiting caller on stepMtx (pthread mutexes are not fair): "
               "the bound is in driver steps, as the property states, not in other callers' actions.")
